@@ -1176,3 +1176,549 @@ pub fn main_script(args: &Args) -> i32 {
         }
     }
 }
+
+// ======================================================================
+// Free walks: random histories OUTSIDE the bounded graph (arbitrary configurations, indexes,
+// lengths).  Nothing is expected here: every call is recorded (arguments, return value, snapshot,
+// digests of exposed shards next to a fresh reference codec's) and Trace_Codec.tla alone decides.
+
+fn pick_cfg(rng: &mut impl Rng, kind: Kind, big_shards: bool) -> (usize, usize, usize) {
+    loop {
+        let lim = match rng.gen_range(0..10) {
+            0..=5 => 8,
+            6..=8 => 40,
+            _ => 300,
+        };
+        let k = rng.gen_range(1..=lim);
+        let r = rng.gen_range(1..=lim);
+        let sb = if big_shards {
+            *[1024usize, 2048, 4096, 4160, 8320, 1026, 3000].choose(rng).unwrap()
+        } else {
+            *[2usize, 4, 6, 8, 30, 62, 64, 66, 126, 128, 130, 192, 256, 258].choose(rng).unwrap()
+        };
+        let ok = match kind {
+            Kind::High => crate::dut::supports_rate("high", k, r),
+            Kind::Low => crate::dut::supports_rate("low", k, r),
+            _ => true,
+        };
+        if ok {
+            return (k, r, sb);
+        }
+    }
+}
+
+fn bad_cfg(rng: &mut impl Rng, k: usize, r: usize, sb: usize) -> (usize, usize, usize) {
+    match rng.gen_range(0..12) {
+        0 => (0, r, sb),
+        1 => (k, 0, sb),
+        2 => (65536, r, sb),
+        3 => (k, 65536, sb),
+        4 => (usize::MAX, r, sb),
+        5 => (k, usize::MAX - 1, sb),
+        6 => (k, r, 0),
+        7 => (k, r, sb + 1),
+        8 => (k, r, usize::MAX),
+        9 => (40000, 40000, sb),
+        10 => (65535, 2, sb),
+        _ => (1usize << 33, r, 1),
+    }
+}
+
+fn step_json(act: &str, fields: &[(&str, i64)], strs: &[(&str, &str)]) -> Value {
+    let mut m = serde_json::Map::new();
+    m.insert("act".into(), Value::String(act.into()));
+    for (k, v) in fields {
+        m.insert((*k).into(), Value::from(*v));
+    }
+    for (k, v) in strs {
+        m.insert((*k).into(), Value::String((*v).into()));
+    }
+    Value::Object(m)
+}
+
+fn snap_rate(snap: &str) -> (String, usize, usize, usize, usize) {
+    let s: Value = serde_json::from_str(snap).unwrap();
+    if s.get("missing").is_some() {
+        return ("none".into(), 0, 0, 0, 0);
+    }
+    (s["rate"].as_str().unwrap().to_string(), us(&s["k"]), us(&s["r"]), us(&s["sb"]), us(&s["oc"]))
+}
+
+pub fn free_enc<E: MkEngine>(x: &mut Exec, rng: &mut impl Rng, len: usize, big: bool) {
+    crate::ops::poison_on(x.seed ^ x.steps.wrapping_mul(0x51ed));
+    x.run_id += 1;
+    let kinds: Vec<Kind> = if x.engine == "default" { vec![Kind::High, Kind::Low, Kind::Default, Kind::Rs] } else { vec![Kind::High, Kind::Low, Kind::Default] };
+    let kind0 = *kinds.choose(rng).unwrap();
+    let (k0, r0, sb0) = pick_cfg(rng, kind0, big);
+    let Ok(Ok(mut obj)) = guarded!(EncObj::<E>::new(kind0, k0, r0, sb0)) else {
+        let st = step_json("new", &[("k", util::enc(k0)), ("r", util::enc(r0)), ("sb", util::enc(sb0))], &[("kind", kind0.name())]);
+        trace_event(x, "enc", &st, &util::panic_json("construction failed"), "{\"missing\":true}", None, &[], None);
+        return;
+    };
+    let (snap, _) = enc_snap_json(&obj, false);
+    let st = step_json("new", &[("k", util::enc(k0)), ("r", util::enc(r0)), ("sb", util::enc(sb0))], &[("kind", kind0.name())]);
+    trace_event(x, "enc", &st, util::OK_JSON, &snap, None, &[], None);
+    let mut added: Vec<Vec<u8>> = Vec::new();
+    let mut pay_no = 0u64;
+    for _ in 0..len {
+        x.steps += 1;
+        let (snap0, _) = enc_snap_json(&obj, false);
+        let (rate, k, r, sb, oc) = snap_rate(&snap0);
+        if rate == "none" {
+            // the object lost its inner codec: record one more call so that the trace shows it, then stop
+            let st = step_json("encode", &[], &[]);
+            let res = guarded!(obj.encode().map(|_| ()));
+            let ret = match &res {
+                Ok(r) => ret_json(r),
+                Err(p) => p.clone(),
+            };
+            trace_event(x, "enc", &st, &ret, &snap0, None, &[], None);
+            return;
+        }
+        // bias towards completing rounds: add until full, then mostly encode
+        let full = added.len() >= k;
+        let (t_add, t_run, t_reset) = if full { (8, 78, 94) } else { (80, 86, 96) };
+        let roll = rng.gen_range(0..100);
+        if roll < t_add && k <= 400 {
+            // add
+            let l = if rng.gen_bool(0.85) { sb } else { *[0usize, 1, sb + 2, sb.saturating_sub(2), sb * 2, 64].choose(rng).unwrap() };
+            pay_no += 1;
+            let data = util::payload(x.seed, 0xF00 + pay_no, x.run_id, l);
+            let tag = format!("p{pay_no}");
+            let st = step_json("add", &[("len", util::enc(l))], &[("pay", &tag)]);
+            let before = obj.snap().1.map(|s| (s.data_ptr, s.data_capacity));
+            let (res, allocs) = alloc::measure(|| guarded!(obj.add(&data)));
+            let ret = match &res {
+                Ok(r) => ret_json(r),
+                Err(p) => p.clone(),
+            };
+            if matches!(res, Ok(Ok(()))) {
+                added.push(data);
+            }
+            let (snap, after) = enc_snap_json(&obj, false);
+            let ptr_same = match (before, after) {
+                (Some(b), Some(a)) => Some(b == (a.0, a.1)),
+                _ => None,
+            };
+            trace_event(x, "enc", &st, &ret, &snap, None, &allocs, ptr_same);
+            let _ = oc;
+        } else if roll < t_run {
+            // encode, then use the result
+            let st = step_json("encode", &[], &[]);
+            let reference: Vec<Vec<u8>> = if added.len() == k && crate::dut::supports_rate(&rate, k, r) { crate::dut::ref_encode(&rate, k, r, &added) } else { Vec::new() };
+            let kindname = obj.kind().name();
+            let mut events: Vec<(Value, String, Option<String>, Vec<usize>)> = Vec::new();
+            let mut live_snap = String::new();
+            let (outcome, allocs) = encode_then(&mut obj, |result, _| {
+                let s = result.verif_work().verif_snapshot();
+                live_snap = Obj::new()
+                    .str("kind", kindname)
+                    .str("rate", &rate)
+                    .us("k", s.original_count)
+                    .us("r", s.recovery_count)
+                    .us("sb", s.shard_bytes)
+                    .us("oc", s.original_received_count)
+                    .bool("live", true)
+                    .us("cap", s.data_capacity)
+                    .us("len", s.data_len)
+                    .us("wc", s.work_count)
+                    .done();
+                let nq = rng.gen_range(0..4);
+                for _ in 0..nq {
+                    let idx = *[rng.gen_range(0..r + 2), r - 1, r, 0, 65535, 65536, usize::MAX, usize::MAX - 1].choose(rng).unwrap();
+                    let (got, al) = alloc::measure(|| guarded!(result.recovery(idx)));
+                    match got {
+                        Ok(g) => {
+                            let g = g.map(<[u8]>::to_vec);
+                            let extra = g.as_ref().map(|b| {
+                                format!("\"out\":{},\"ref\":{}", digest_items(&[(idx, b.clone())]), digest_items(&[(idx, reference.get(idx).cloned().unwrap_or_default())]))
+                            });
+                            events.push((step_json("query", &[("index", util::enc(idx))], &[]), Obj::new().bool("some", g.is_some()).done(), extra, al));
+                        }
+                        Err(p) => events.push((step_json("query", &[("index", util::enc(idx))], &[]), p, None, al)),
+                    }
+                }
+                if rng.gen_bool(0.7) {
+                    let got = guarded!({
+                        let mut it = result.recovery_iter();
+                        let mut v = Vec::new();
+                        for s in it.by_ref() {
+                            v.push(s.to_vec());
+                            if v.len() > 70000 {
+                                break;
+                            }
+                        }
+                        let again = (0..3).filter(|_| it.next().is_some()).count();
+                        (v, again)
+                    });
+                    match got {
+                        Ok((items, again)) => {
+                            let indexed: Vec<(usize, Vec<u8>)> = items.iter().cloned().enumerate().collect();
+                            let refs: Vec<(usize, Vec<u8>)> = reference.iter().cloned().enumerate().collect();
+                            events.push((
+                                step_json("iter", &[], &[]),
+                                Obj::new().us("count", items.len()).us("again", again).done(),
+                                Some(format!("\"out\":{},\"ref\":{}", digest_items(&indexed), digest_items(&refs))),
+                                Vec::new(),
+                            ));
+                        }
+                        Err(p) => events.push((step_json("iter", &[], &[]), p, None, Vec::new())),
+                    }
+                }
+            });
+            match outcome {
+                Err(p) => {
+                    let (snap, _) = enc_snap_json(&obj, false);
+                    trace_event(x, "enc", &st, &p, &snap, None, &allocs, None);
+                    return;
+                }
+                Ok(Err(e)) => {
+                    let (snap, _) = enc_snap_json(&obj, false);
+                    trace_event(x, "enc", &st, &util::err_json(&e), &snap, None, &allocs, Some(true));
+                }
+                Ok(Ok(())) => {
+                    trace_event(x, "enc", &st, util::OK_JSON, &live_snap, None, &allocs, Some(true));
+                    for (st, ret, extra, al) in events {
+                        trace_event(x, "enc", &st, &ret, &live_snap, extra, &al, Some(true));
+                    }
+                    let (snap, _) = enc_snap_json(&obj, false);
+                    trace_event(x, "enc", &step_json("drop", &[], &[]), util::OK_JSON, &snap, None, &[], Some(true));
+                    added.clear();
+                }
+            }
+        } else if roll < t_reset || obj.kind() == Kind::Rs {
+            // reset
+            let (mut nk, mut nr, mut nsb) = pick_cfg(rng, obj.kind(), big);
+            if rng.gen_bool(0.25) {
+                (nk, nr, nsb) = bad_cfg(rng, nk, nr, nsb);
+            }
+            let st = step_json("reset", &[("k", util::enc(nk)), ("r", util::enc(nr)), ("sb", util::enc(nsb))], &[]);
+            let before = obj.snap().1.map(|s| (s.data_ptr, s.data_capacity));
+            let (res, allocs) = alloc::measure(|| guarded!(obj.reset(nk, nr, nsb)));
+            let ret = match &res {
+                Ok(r) => ret_json(r),
+                Err(p) => p.clone(),
+            };
+            if matches!(res, Ok(Ok(()))) {
+                added.clear();
+            }
+            let (snap, after) = enc_snap_json(&obj, false);
+            let ptr_same = match (before, after) {
+                (Some(b), Some(a)) => Some(b == (a.0, a.1)),
+                _ => None,
+            };
+            trace_event(x, "enc", &st, &ret, &snap, None, &allocs, ptr_same);
+        } else {
+            // rehouse into another kind (valid configuration: a failing rehouse consumes the object)
+            let kd = *[Kind::High, Kind::Low, Kind::Default].choose(rng).unwrap();
+            let (nk, nr, nsb) = pick_cfg(rng, kd, big);
+            let st = step_json("rehouse", &[("k", util::enc(nk)), ("r", util::enc(nr)), ("sb", util::enc(nsb))], &[("kind", kd.name())]);
+            let before = obj.snap().1.map(|s| (s.data_ptr, s.data_capacity));
+            let (res, allocs) = alloc::measure(|| guarded!(obj.rehouse(kd, nk, nr, nsb)));
+            match res {
+                Ok(Ok(o)) => obj = o,
+                Ok(Err(e)) => {
+                    trace_event(x, "enc", &st, &util::err_json(&e), "{\"missing\":true}", None, &allocs, None);
+                    return;
+                }
+                Err(p) => {
+                    trace_event(x, "enc", &st, &p, "{\"missing\":true}", None, &allocs, None);
+                    return;
+                }
+            }
+            added.clear();
+            let (snap, after) = enc_snap_json(&obj, false);
+            let ptr_same = match (before, after) {
+                (Some(b), Some(a)) => Some(b == (a.0, a.1)),
+                _ => None,
+            };
+            trace_event(x, "enc", &st, util::OK_JSON, &snap, None, &allocs, ptr_same);
+        }
+    }
+}
+
+pub fn free_dec<E: MkEngine>(x: &mut Exec, rng: &mut impl Rng, len: usize, big: bool) {
+    crate::ops::poison_on(x.seed ^ x.steps.wrapping_mul(0x51ed));
+    x.run_id += 1;
+    let kinds: Vec<Kind> = if x.engine == "default" { vec![Kind::High, Kind::Low, Kind::Default, Kind::Rs] } else { vec![Kind::High, Kind::Low, Kind::Default] };
+    let kind0 = *kinds.choose(rng).unwrap();
+    let (k0, r0, sb0) = pick_cfg(rng, kind0, big);
+    let Ok(Ok(mut obj)) = guarded!(DecObj::<E>::new(kind0, k0, r0, sb0)) else {
+        let st = step_json("new", &[("k", util::enc(k0)), ("r", util::enc(r0)), ("sb", util::enc(sb0))], &[("kind", kind0.name())]);
+        trace_event(x, "dec", &st, &util::panic_json("construction failed"), "{\"missing\":true}", None, &[], None);
+        return;
+    };
+    let (snap, _) = dec_snap_json(&obj, false);
+    let st = step_json("new", &[("k", util::enc(k0)), ("r", util::enc(r0)), ("sb", util::enc(sb0))], &[("kind", kind0.name())]);
+    trace_event(x, "dec", &st, util::OK_JSON, &snap, None, &[], None);
+    // the round's codeword: made when first needed, forgotten at reset / rehouse / drop
+    let mut round: Option<(Vec<Vec<u8>>, Vec<Vec<u8>>)> = None;
+    let mut round_no = 0u64;
+    let mut given_o: BTreeSet<usize> = BTreeSet::new();
+    let mut given_r: BTreeSet<usize> = BTreeSet::new();
+    for _ in 0..len {
+        x.steps += 1;
+        let (snap0, _) = dec_snap_json(&obj, false);
+        let (rate, k, r, sb, _) = snap_rate(&snap0);
+        if rate == "none" {
+            let st = step_json("decode", &[], &[]);
+            let res = guarded!(obj.decode().map(|_| ()));
+            let ret = match &res {
+                Ok(r) => ret_json(r),
+                Err(p) => p.clone(),
+            };
+            trace_event(x, "dec", &st, &ret, &snap0, None, &[], None);
+            return;
+        }
+        if round.is_none() && k <= 400 && r <= 400 && crate::dut::supports_rate(&rate, k, r) {
+            round_no += 1;
+            let orig: Vec<Vec<u8>> = (0..k).map(|i| util::payload(x.seed, 0xD00 + round_no, x.run_id * 1000 + i as u64, sb)).collect();
+            let rec = crate::dut::ref_encode(&rate, k, r, &orig);
+            round = Some((orig, rec));
+        }
+        let enough = given_o.len() + given_r.len() >= k;
+        let (t_add, t_run, t_reset) = if enough { (25, 80, 95) } else { (82, 87, 96) };
+        let roll = rng.gen_range(0..100);
+        if roll < t_add && round.is_some() {
+            let (orig, rec) = round.as_ref().unwrap();
+            let is_rec = rng.gen_bool(0.5);
+            let cnt = if is_rec { r } else { k };
+            let given = if is_rec { &given_r } else { &given_o };
+            let fresh: Vec<usize> = (0..cnt).filter(|i| !given.contains(i)).collect();
+            let idx = match rng.gen_range(0..20) {
+                0 => cnt,
+                1 => *[65535usize, 65536, usize::MAX, usize::MAX - 1, cnt + 1].choose(rng).unwrap(),
+                2 if !given.is_empty() => *given.iter().next().unwrap(),
+                _ if !fresh.is_empty() => *fresh.choose(rng).unwrap(),
+                _ => rng.gen_range(0..cnt),
+            };
+            let l = if rng.gen_bool(0.88) { sb } else { *[0usize, 1, sb + 2, sb.saturating_sub(2), 64].choose(rng).unwrap() };
+            let src = if is_rec { rec.get(idx) } else { orig.get(idx) };
+            let data = match src {
+                Some(s) if l == sb => s.clone(),
+                _ => util::payload(x.seed, 0xBAD, idx as u64 & 0xffff, l),
+            };
+            let act = if is_rec { "add_recovery" } else { "add_original" };
+            let st = step_json(act, &[("index", util::enc(idx)), ("len", util::enc(l))], &[]);
+            let before = obj.snap().1.map(|s| (s.data_ptr, s.data_capacity));
+            let (res, allocs) = alloc::measure(|| guarded!(if is_rec { obj.add_recovery(idx, &data) } else { obj.add_original(idx, &data) }));
+            let ret = match &res {
+                Ok(r) => ret_json(r),
+                Err(p) => p.clone(),
+            };
+            if matches!(res, Ok(Ok(()))) {
+                if is_rec {
+                    given_r.insert(idx);
+                } else {
+                    given_o.insert(idx);
+                }
+            }
+            let (snap, after) = dec_snap_json(&obj, false);
+            let ptr_same = match (before, after) {
+                (Some(b), Some(a)) => Some(b == (a.0, a.1)),
+                _ => None,
+            };
+            trace_event(x, "dec", &st, &ret, &snap, None, &allocs, ptr_same);
+        } else if roll < t_run {
+            let st = step_json("decode", &[], &[]);
+            let kindname = obj.kind().name();
+            let orig: Vec<Vec<u8>> = round.as_ref().map(|x| x.0.clone()).unwrap_or_default();
+            let mut events: Vec<(Value, String, Option<String>, Vec<usize>)> = Vec::new();
+            let mut live_snap = String::new();
+            let go = given_o.clone();
+            let (outcome, allocs) = decode_then(&mut obj, |result, _| {
+                let s = result.verif_work().verif_snapshot();
+                live_snap = Obj::new()
+                    .str("kind", kindname)
+                    .str("rate", &rate)
+                    .us("k", s.original_count)
+                    .us("r", s.recovery_count)
+                    .us("sb", s.shard_bytes)
+                    .us("oc", s.original_received_count)
+                    .us("rc", s.recovery_received_count)
+                    .uss("gotO", s.received_original.iter())
+                    .uss("gotR", s.received_recovery.iter())
+                    .us("stray", s.received_elsewhere)
+                    .bool("live", true)
+                    .us("cap", s.data_capacity)
+                    .us("len", s.data_len)
+                    .us("wc", s.work_count)
+                    .us("bits", s.bitmap_len)
+                    .us("obase", s.original_base_pos)
+                    .us("rbase", s.recovery_base_pos)
+                    .done();
+                let nq = rng.gen_range(0..4);
+                for _ in 0..nq {
+                    let idx = *[rng.gen_range(0..k + 2), k - 1, k, 0, 65535, 65536, usize::MAX, usize::MAX - 1].choose(rng).unwrap();
+                    let (got, al) = alloc::measure(|| guarded!(result.restored_original(idx)));
+                    match got {
+                        Ok(g) => {
+                            let g = g.map(<[u8]>::to_vec);
+                            let extra = g.as_ref().map(|b| {
+                                format!("\"out\":{},\"ref\":{}", digest_items(&[(idx, b.clone())]), digest_items(&[(idx, orig.get(idx).cloned().unwrap_or_default())]))
+                            });
+                            events.push((step_json("query", &[("index", util::enc(idx))], &[]), Obj::new().bool("some", g.is_some()).done(), extra, al));
+                        }
+                        Err(p) => events.push((step_json("query", &[("index", util::enc(idx))], &[]), p, None, al)),
+                    }
+                }
+                if rng.gen_bool(0.7) {
+                    let got = guarded!({
+                        let mut it = result.restored_original_iter();
+                        let mut v = Vec::new();
+                        for (i, s) in it.by_ref() {
+                            v.push((i, s.to_vec()));
+                            if v.len() > 70000 {
+                                break;
+                            }
+                        }
+                        let again = (0..3).filter(|_| it.next().is_some()).count();
+                        (v, again)
+                    });
+                    match got {
+                        Ok((items, again)) => {
+                            let refs: Vec<(usize, Vec<u8>)> = (0..k).filter(|j| !go.contains(j)).map(|j| (j, orig.get(j).cloned().unwrap_or_default())).collect();
+                            events.push((
+                                step_json("iter", &[], &[]),
+                                Obj::new().us("count", items.len()).us("again", again).done(),
+                                Some(format!("\"out\":{},\"ref\":{}", digest_items(&items), digest_items(&refs))),
+                                Vec::new(),
+                            ));
+                        }
+                        Err(p) => events.push((step_json("iter", &[], &[]), p, None, Vec::new())),
+                    }
+                }
+            });
+            match outcome {
+                Err(p) => {
+                    let (snap, _) = dec_snap_json(&obj, false);
+                    trace_event(x, "dec", &st, &p, &snap, None, &allocs, None);
+                    return;
+                }
+                Ok(Err(e)) => {
+                    let (snap, _) = dec_snap_json(&obj, false);
+                    trace_event(x, "dec", &st, &util::err_json(&e), &snap, None, &allocs, Some(true));
+                }
+                Ok(Ok(())) => {
+                    trace_event(x, "dec", &st, util::OK_JSON, &live_snap, None, &allocs, Some(true));
+                    for (st, ret, extra, al) in events {
+                        trace_event(x, "dec", &st, &ret, &live_snap, extra, &al, Some(true));
+                    }
+                    let (snap, _) = dec_snap_json(&obj, false);
+                    trace_event(x, "dec", &step_json("drop", &[], &[]), util::OK_JSON, &snap, None, &[], Some(true));
+                    round = None;
+                    given_o.clear();
+                    given_r.clear();
+                }
+            }
+        } else if roll < t_reset || obj.kind() == Kind::Rs {
+            let (mut nk, mut nr, mut nsb) = pick_cfg(rng, obj.kind(), big);
+            if rng.gen_bool(0.25) {
+                (nk, nr, nsb) = bad_cfg(rng, nk, nr, nsb);
+            }
+            let st = step_json("reset", &[("k", util::enc(nk)), ("r", util::enc(nr)), ("sb", util::enc(nsb))], &[]);
+            let before = obj.snap().1.map(|s| (s.data_ptr, s.data_capacity));
+            let (res, allocs) = alloc::measure(|| guarded!(obj.reset(nk, nr, nsb)));
+            let ret = match &res {
+                Ok(r) => ret_json(r),
+                Err(p) => p.clone(),
+            };
+            if matches!(res, Ok(Ok(()))) {
+                round = None;
+                given_o.clear();
+                given_r.clear();
+            }
+            let (snap, after) = dec_snap_json(&obj, false);
+            let ptr_same = match (before, after) {
+                (Some(b), Some(a)) => Some(b == (a.0, a.1)),
+                _ => None,
+            };
+            trace_event(x, "dec", &st, &ret, &snap, None, &allocs, ptr_same);
+        } else {
+            let kd = *[Kind::High, Kind::Low, Kind::Default].choose(rng).unwrap();
+            let (nk, nr, nsb) = pick_cfg(rng, kd, big);
+            let st = step_json("rehouse", &[("k", util::enc(nk)), ("r", util::enc(nr)), ("sb", util::enc(nsb))], &[("kind", kd.name())]);
+            let before = obj.snap().1.map(|s| (s.data_ptr, s.data_capacity));
+            let (res, allocs) = alloc::measure(|| guarded!(obj.rehouse(kd, nk, nr, nsb)));
+            match res {
+                Ok(Ok(o)) => obj = o,
+                Ok(Err(e)) => {
+                    trace_event(x, "dec", &st, &util::err_json(&e), "{\"missing\":true}", None, &allocs, None);
+                    return;
+                }
+                Err(p) => {
+                    trace_event(x, "dec", &st, &p, "{\"missing\":true}", None, &allocs, None);
+                    return;
+                }
+            }
+            round = None;
+            given_o.clear();
+            given_r.clear();
+            let (snap, after) = dec_snap_json(&obj, false);
+            let ptr_same = match (before, after) {
+                (Some(b), Some(a)) => Some(b == (a.0, a.1)),
+                _ => None,
+            };
+            trace_event(x, "dec", &st, util::OK_JSON, &snap, None, &allocs, ptr_same);
+        }
+    }
+}
+
+/// rsverif freewalk --role enc|dec --trace <prefix> --seed S --runs N --len L [--engines a,b] [--alloc 1] [--bigshards 1]
+pub fn main_free(args: &Args) -> i32 {
+    let role = args.req("role").to_string();
+    let engines: Vec<&'static str> = crate::engines::usable_engines()
+        .into_iter()
+        .filter(|e| args.get("engines").map_or(true, |l| l.split(',').any(|y| y == *e)))
+        .collect();
+    if args.get("alloc").is_some() {
+        warm_tables();
+    }
+    let runs = args.num("runs", 100) as usize;
+    let len = args.num("len", 60) as usize;
+    let seed = args.num("seed", 1);
+    let big = args.get("bigshards").is_some();
+    let prefix = args.req("trace").to_string();
+    let per = runs.div_ceil(engines.len());
+    let counts: Vec<(u64, usize)> = std::thread::scope(|sc| {
+        let hs: Vec<_> = engines
+            .iter()
+            .map(|engine| {
+                let engine: &'static str = engine;
+                let role = role.clone();
+                let prefix = prefix.clone();
+                sc.spawn(move || {
+                    let mut x = Exec {
+                        seed,
+                        engine,
+                        refcache: HashMap::new(),
+                        steps: 0,
+                        trace: Some(Trace::create(&format!("{prefix}.{engine}.0"))),
+                        run_id: 0,
+                        measure_alloc: args.get("alloc").is_some(),
+                    };
+                    let mut rng = util::rng(seed, 0xF4EE ^ util::fnv(engine.as_bytes()));
+                    for _ in 0..per {
+                        with_engine!(engine, E, {
+                            if role == "enc" {
+                                free_enc::<E>(&mut x, &mut rng, len, big)
+                            } else {
+                                free_dec::<E>(&mut x, &mut rng, len, big)
+                            }
+                        });
+                    }
+                    let lines = x.trace.take().unwrap().finish();
+                    (x.steps, lines)
+                })
+            })
+            .collect();
+        hs.into_iter().map(|h| h.join().unwrap()).collect()
+    });
+    println!(
+        "{{\"runs\":{},\"steps\":{},\"events\":{}}}",
+        per * engines.len(),
+        counts.iter().map(|c| c.0).sum::<u64>(),
+        counts.iter().map(|c| c.1).sum::<usize>()
+    );
+    0
+}
